@@ -92,6 +92,11 @@ def gen_cases(ctx) -> List[Dict[str, Any]]:
                 cases.append(c)
     for b in ("well_behaved", "ignore_sigterm", "flood"):
         cases.append({"behaviour": b, "exit": "normal", "moment": "in_flight", "env": {"LOG_LEVEL": "ERROR"}})
+    # cancellation / deadline landing while the context is still being entered (process just spawned)
+    for b in ("well_behaved", "slow_start:0.4"):
+        for e in ("cancel", "fail_after"):
+            for ca in ((0.005, 0.02, 0.04, 0.07) if ctx.tier == "quick" else (0.002, 0.005, 0.01, 0.02, 0.03, 0.04, 0.05, 0.06, 0.07, 0.1)):
+                cases.append({"behaviour": b, "exit": e, "moment": "before_first", "cancel_after": ca})
     # the same StdioClient object entered again after earlier uses
     for b in (("well_behaved", "ignore_sigterm") if ctx.tier == "quick" else ("well_behaved", "ignore_sigterm", "never_read", "flood", "exit_at:2")):
         for e in exits:
@@ -138,7 +143,11 @@ def judge(ctx, case: Dict[str, Any], o: Dict[str, Any], remeasure) -> None:
             ctx.violation("unstartable_no_exception", f"entering did not raise: {o.get('body_outcome')!r}", case)
         shape.append("raised" if not o.get("entered") else "entered")
     else:
-        if not o.get("entered"):
+        # a cancellation / deadline that lands while the context is still being entered legitimately prevents the entry
+        # (and, if early enough, even the spawn): what matters then is only that nothing is left behind
+        early_cancel = case["exit"] in ("cancel", "fail_after") and case.get("cancel_after", 1.0) < 0.15 and \
+            str(o.get("body_outcome")) in ("cancelled", "timeout")
+        if not o.get("entered") and not early_cancel:
             ctx.violation("entry_failed", f"context was not entered: {o.get('body_outcome')!r}", case)
         # children gone?
         for pid, st in (o.get("states") or {}).items():
@@ -156,7 +165,7 @@ def judge(ctx, case: Dict[str, Any], o: Dict[str, Any], remeasure) -> None:
                 # gone 0.3 s later only because the event loop kept running and its child watcher reaped it
                 ctx.violation("child_unreaped_when_context_left", f"child pid {pid} was in state {st!r} at the moment the "
                               f"context was left (only reaped later by the loop's child watcher)", case, o)
-        if not o.get("pids"):
+        if not o.get("pids") and not early_cancel:
             ctx.violation("no_child_spawned", "no process was spawned", case)
     if case.get("prior_uses"):
         ctx.count("reused_client_sessions")
